@@ -11,7 +11,7 @@ import ast
 from typing import Dict, List, Optional, Set, Tuple
 
 from oqv import abseval as ae
-from oqv.astutil import call_name, method_call
+from oqv.astutil import branch_context, call_name, method_call
 from oqv.cfg import CFG
 from oqv.dataflow import DefUse, depends_on, expand
 from oqv.model import AnalysisError, Program, Unit, dotted, norm, walk_local
@@ -645,6 +645,44 @@ def x7(prog: Program, chk: Check) -> None:
             not casts, "" if not casts else f"casts: {casts}")
 
 
+# --------------------------------------------------------------------- X8
+def x8(prog: Program, chk: Check) -> None:
+    chk.rule("X8", "reading a file back: a field becomes None exactly when ITS OWN stored value is "
+             "the None sentinel - every `<field> = None` in _read_file depends only on "
+             "_is_hdf5_none(<that field>), so the presence of one optional field never decides "
+             "about another", floor=3)
+    u = prog.unit(f"{PT}:FileProcessTensor._read_file")
+    chk.saw(u)
+    n = 0
+    for st in walk_local(u.node):
+        if not isinstance(st, ast.Assign):
+            continue
+        pairs = []
+        for t in st.targets:
+            if isinstance(t, (ast.Tuple, ast.List)) and isinstance(st.value, (ast.Tuple, ast.List)) \
+                    and len(t.elts) == len(st.value.elts):
+                pairs += list(zip(t.elts, st.value.elts))
+            else:
+                pairs.append((t, st.value))
+        for (t, v) in pairs:
+            if not (isinstance(v, ast.Constant) and v.value is None and dotted(t)):
+                continue
+            tests = [tt for (tt, br) in branch_context(u.node, st)]
+            subjects = {norm(c.args[0]) for tt in tests for c in ast.walk(tt)
+                        if isinstance(c, ast.Call) and call_name(c) == "_is_hdf5_none" and c.args}
+            if not subjects:
+                continue
+            n += 1
+            ok = subjects == {dotted(t)}
+            chk.add("X8", u, f"{dotted(t)} = None under _is_hdf5_none({sorted(subjects)})", ok,
+                    "its own sentinel" if ok else
+                    f"`{dotted(t)}` is dropped depending on {sorted(subjects - {dotted(t)})}: a file "
+                    f"that stores only one of the optional fields is imported without it", st)
+    if n < 3:
+        raise AnalysisError(f"X8: only {n} sentinel-to-None conversions found in _read_file "
+                            f"(dt, transform_in, transform_out expected)")
+
+
 def run(prog: Program, chk: Check) -> None:
     chk.explanation = (
         "Decides the structural clauses of C16: writer/reader key-table agreement (X1), field "
@@ -663,3 +701,4 @@ def run(prog: Program, chk: Check) -> None:
     chk.call(x5, prog, chk)
     chk.call(x6, prog, chk)
     chk.call(x7, prog, chk)
+    chk.call(x8, prog, chk)
